@@ -8,7 +8,7 @@ from ..export import AnalysisBroken
 from ..ir import strip_casts, const_of, walk, show, is_call, kids, path_of
 from ..graph import find_path, ret_class, cond_facts, ev_dominates
 from .. import df
-from .common import (failed_output_use, READ_OUTPUTS, propagation, compare_info, gate_obligations, call_arg_path, consumed, exceptions, READ_CHAIN)
+from .common import (failed_output_use, READ_OUTPUTS, propagation, nonzero_starts, compare_info, gate_obligations, call_arg_path, consumed, exceptions, READ_CHAIN)
 
 EXPL = ('Rule instances over the read path of raw.c/core.c and the CRC units: header/payload/file-header CRC gates '
         '(must-pass-through on the event CFG with same-variable branch refinement), who-may-call jls_bk_fread with a '
@@ -65,6 +65,7 @@ def run(ctx, sess):
     ctx.rule('C04.7', 'failed read is not consumed: with the result of a read-chain call non-zero, no load of the call\'s output objects (header, payload buffer, core chunk state) is reachable before another read refills them')
     ctx.rule('C04.8', 'buffer freshness: payload bytes in the core read buffer are consumed only after a checked chunk read (or reconstruction) succeeded on that very path; no reader reuses the buffer across calls')
     ctx.rule('C04.9', 'cache validity: when a read goes straight into state that outlives the call (the cached chunk header of the raw reader), every failing exit after that read marks the state invalid (tag = INVALID); and a field that short-cuts a reader when it is >= 0 (the cached signal length) is never left set by a call that goes on to fail')
+    ctx.rule('C04.10', 'opening does not swallow a failed read: in jls_rd_open and the scan functions it calls, with the result of a read-chain call non-zero (other than a listed benign code: TRUNCATED from jls_raw_open, EMPTY while looking for the heads) no path reaches another read-chain call or a zero return')
     ctx.rule('C04.6', 'error consumption on the read chain: no result of a read-chain function is discarded')
 
     fread_sites = P.callers().get('jls_bk_fread', [])
@@ -194,6 +195,12 @@ def run(ctx, sess):
     _freshness(ctx, P, exc)
     _cache_validity(ctx, P)
     _guarded_caches(ctx, P)
+    _open_strict(ctx, P)
+    # the value the gates compare with is the CRC-32C in every implementation (C04's three-bit clause rests on it)
+    ctx.rule('C04.11', '"at most three flipped bits": the function the gates compare with is the plain CRC-32C register update in every implementation the build can select: kernels, framing and - for the intrinsic implementations - a single ordered chain of steps that tiles the input (shared with C18.2-C18.4); the minimum distance itself is the polynomial\'s')
+    from .common import relay
+    from . import c18 as _src_c18
+    relay(ctx, sess, _src_c18.run, {'C18.2': 'C04.11', 'C18.3': 'C04.11', 'C18.4': 'C04.11'})
 
 
 def _footer_le(fn, cmp_block, dpath, size_arg):
@@ -689,3 +696,75 @@ def _guarded_caches(ctx, P):
                        'the cache is filled before a read that can fail: after the error the next call finds %s >= 0 and returns it with result 0' % fld,
                        w.render() if w else None)
     ctx.floor('stores to guarded caches', n, 1)
+
+
+# ---- C04.10: opening a file does not swallow a failed chunk read
+OPEN_SCOPE = ('jls_rd_open', 'jls_core_scan_initial', 'jls_core_scan_sources', 'jls_core_scan_signals', 'jls_core_scan_fsr_sample_id')
+# result codes that are not a failed check, by contract of the callee (one line of reason each)
+OPEN_BENIGN = {
+    'jls_raw_open': {'JLS_ERROR_TRUNCATED': 'the file header is intact but the file was not closed: the caller repairs it'},
+    'jls_core_rd_chunk': {'JLS_ERROR_EMPTY': 'no more bytes: the end of the file was reached while looking for the heads'},
+}
+
+
+def _open_chain(name):
+    return name.startswith(('jls_raw_', 'jls_core_rd_chunk', 'jls_core_scan_', 'jls_core_repair_', 'jls_bk_', 'jls_core_wr_end')) and \
+        name not in ('jls_raw_chunk_tell', 'jls_raw_backend', 'jls_raw_version')
+
+
+def _open_strict(ctx, P):
+    codes = {it['name']: it['v'] for it in P.enum('jls_error_code_e')['items']}
+    n = 0
+    for name in OPEN_SCOPE:
+        fn = P.fn(name)
+        ctx.saw(fn)
+        for ev in fn.calls():
+            if not _open_chain(ev.callee):
+                continue
+            callee = P.functions.get(ev.callee)
+            if callee is not None and not callee.ret.startswith(('i32', 'i')):
+                continue
+            st = nonzero_starts(fn, ev)
+            key = '%s()' % ev.callee
+            if st == 'returned':
+                n += 1
+                ctx.ob('C04.10', True, fn.name, key, ev.where(), 'returned to the caller')
+                continue
+            if st is None:
+                if consumed(fn, ev)[0]:
+                    n += 1
+                    ctx.ob('C04.10', False, fn.name, key, ev.where(), 'the use of the result is not of a form this rule understands')
+                continue          # discarded results are C04.6's business
+            benign = {codes[c] for c in OPEN_BENIGN.get(ev.callee, {})}
+            rvars = {f[0] for _, facts in st for f in facts}
+
+            def edge_ok(b, s, label, benign=benign, rvars=rvars):
+                # the edge on which the result equals a benign code is not a failure
+                if not benign or b.cond is None or label not in ('T', 'F'):
+                    return True
+                ci = compare_info(b.cond)
+                if ci is None:
+                    return True
+                l, r, eq_label = ci
+                for x, y in ((l, r), (r, l)):
+                    if const_of(y) in benign and strip_casts(x).get('op') == 'ref' and (not rvars or strip_casts(x).get('name') in rvars):
+                        return label != eq_label
+                return True
+
+            def on_event(e2, facts):
+                if e2.k == 'call' and _open_chain(e2.callee) and e2.callee not in ('jls_raw_close',):
+                    return 'target'
+                if e2.k == 'ret' and ret_class(fn, e2, facts) == 'zero':
+                    return 'target'
+                return None
+            w = None
+            for start, facts in st:
+                w = find_path(fn, start, on_event, start_facts=facts, edge_ok=edge_ok)
+                if w is not None:
+                    break
+            n += 1
+            ctx.ob('C04.10', w is None, fn.name, key, ev.where(),
+                   'a failed %s ends the open with an error' % ev.callee if w is None else
+                   'with %s() failed (not one of %s) the open carries on: it reads further chunks or reports success, and the caller gets a file whose content silently lacks what the damaged chunk described'
+                   % (ev.callee, sorted(OPEN_BENIGN.get(ev.callee, {})) or 'the benign codes: none'), w.render() if w else None)
+    ctx.floor('read-chain calls of the open path', n, 15)
